@@ -531,9 +531,9 @@ bad = valid != accepted
 print('REPRODUCED' if bad else 'NOT-REPRODUCED'); sys.exit(1 if bad else 0)
 ''' % (x, W, S, P, D, layer)
     path = common.write_replay(PROP, gradcase._safe(spec["name"] + "_" + (kind or "x")), src)
-    ok, out = common.run_replay(path)
+    sig = _accept_signature(layer, kind, x, W, S, P, D)
+    ok, out = common.run_replay(path, count=common.match_known(common.load_known(PROP), sig) is None)
     if ok:
-        sig = _accept_signature(layer, kind, x, W, S, P, D)
         res["status"] = common.VIOLATION
         res["violations"].append({"signature": sig, "replay": path,
                                   "summary": "%s: %s at x=%s W=%s S=%s P=%s D=%s" % (layer, name, x, W, S, P, D)})
